@@ -21,6 +21,10 @@ CONSTANTS
  AdvKinds = {}
  TrackWire = FALSE
  UseIds = FALSE
+ NodeTeardown = FALSE
+ MayVanish = FALSE
+ Aead = TRUE
+ CheckIdent = TRUE
  AutoTimers = TRUE
 INVARIANT TypeOK
 INVARIANT ExitIntegrity
